@@ -9,11 +9,12 @@
        Tick times are ARBITRARY (only monotone): every sleeping policy of every driver, every
        watch-event arriving in between, every position of the handler in a batch is an instance.
        [Reset t] is `state = State.from_scratch().with_handlers([handler])` of daemons._timer,
-       accepted only when the state is done, as in the code.
+       accepted only when the state is done and the handler has not failed
+       (`if state.done and not state[handler.id].failure`), as in the code.
    (2) Four instantiations mirroring the code that exists:
        act_trace  — activities.run_activity           (in-memory loop, sleep(state.delay))
        dmn_trace  — daemons._daemon                   (in-memory loop, stopper, `if state.delay`)
-       tmr_trace  — daemons._timer                    (reset on done, sleep(state.delays) / interval / sharp)
+       tmr_trace  — daemons._timer                    (reset after success only, sleep(state.delays) / interval / sharp)
        pstep/prun — processing.process_changing_cause (state re-read from the stored record on every
                     cycle, cycles at arbitrary event times, operator restarts in between)
    Definitions only; proofs in Proofs/Outcome.v. *)
@@ -51,7 +52,7 @@ Definition step (e : env) (c : hcfg) (s : dstate) (l : label) : option dstate :=
         else Some (mkD hs te (d_log s) (d_past s))
       else None
   | Reset t =>
-      if (d_clock s <=? t) && st_done [d_hs s]
+      if (d_clock s <=? t) && (st_done [d_hs s] && negb (s_failure (d_hs s)))
       then Some (mkD (from_scratch t) t [] (d_log s :: d_past s))
       else None
   end.
@@ -153,7 +154,7 @@ Fixpoint tmr_trace (fuel : nat) (e : env) (c : hcfg) (interval : option Z) (shar
   | O => []
   | S f =>
       if stop_set stop now then [] else
-      let reset := st_done [hs] in
+      let reset := st_done [hs] && negb (s_failure hs) in   (* reset only after a success; keep it if failed *)
       let hs0 := if reset then from_scratch now else hs in
       let pre := if reset then [Reset now] else [] in
       let started := now in
